@@ -254,7 +254,8 @@ let cm_spec head toks obs =
    handshake is a successful dial followed by the Disconnect the server owes the manager; the number of
    connected peers the server reports equals the number of established connections. *)
 let wr_digest (s : ConnMgr.cst) =
-  Printf.sprintf "o%d/w%d/c%d/n%d" (sl s.ConnMgr.conns) (iz (ConnMgr.n_wait s)) (sl s.ConnMgr.conns) (iz s.ConnMgr.dials)
+  (* every admitted outbound peer counts once in its outbound group: g = number of connections *)
+  Printf.sprintf "o%d/w%d/c%d/n%d/g%d" (sl s.ConnMgr.conns) (iz (ConnMgr.n_wait s)) (sl s.ConnMgr.conns) (iz s.ConnMgr.dials) (sl s.ConnMgr.conns)
 
 let wr_model head toks =
   let t = head_int head "t" 0 and mf = head_int head "mf" 0 in
@@ -275,7 +276,8 @@ let wr_model head toks =
             true
           end else false in
         let tag =
-          if e = "N0" || e = "N1" || e = "N3" then (if dial true true then "N" else "-")
+          (* N4 / N5: a second version message is a protocol violation, the peer drops the connection *)
+          if e = "N0" || e = "N1" || e = "N3" || e = "N4" || e = "N5" then (if dial true true then "N" else "-")
           else if e = "N2" then (if dial true false then "N" else "-")
           else if e = "F" then (if dial false false then "F" else "-")
           else if String.length e >= 2 && e.[0] = 'X' then
@@ -306,10 +308,11 @@ let wr_spec head toks obs =
             | Some i ->
               let tag = String.sub w 0 i and d = String.sub w (i + 1) (String.length w - i - 1) in
               (match split_on '/' d with
-               | [o; wq; c; n] ->
+               | [o; wq; c; n; g] ->
                  let num s = strict_int (String.sub s 1 (String.length s - 1)) in
                  (match int_of_nat (ConnMgr.cm_check (zi t) (zi (num o)) (zi (num wq)) (zi 0) (zi 0)) with
-                  | 0 -> if tag = "!" then res := Printf.sprintf "FAIL reaction-missing step %d: no reaction within the bound (%s)" idx d
+                  | 0 -> if num g <> num o then res := Printf.sprintf "FAIL group-counter-wrong step %d: %s - the outbound group counters sum to %d with %d outbound connections open" idx d (num g) (num o)
+                    else if tag = "!" then res := Printf.sprintf "FAIL reaction-missing step %d: no reaction within the bound (%s)" idx d
                     else if num c > num o then res := Printf.sprintf "FAIL connected-above-open step %d: %s" idx d
                   | 1 -> res := Printf.sprintf "FAIL above-target step %d: %s" idx d
                   | 4 -> res := Printf.sprintf "FAIL too-many-requests step %d: %s" idx d
